@@ -4,8 +4,9 @@
 #define VF_POLY_COMMON_HH
 #include "ppl-config.h"
 #include "ppl_include_files.hh"
-#include "common.hh"
 #include "refx.hh"
+#define VF_CASE_BEGIN (ref::LP::limit() = ref::LP::work() + 3000000)
+#include "common.hh"
 
 namespace PPL = Parma_Polyhedra_Library;
 using namespace Parma_Polyhedra_Library;
